@@ -360,6 +360,73 @@ def expr_context_variants(code: str, rng=None, limit=6):
     return out
 
 
+def nested_call_variants(code: str, rng=None, limit=2):
+    """A call nested in its own first positional argument: `f(a, k=v)` -> `f(f(a, k=v), k=v)`.  Syntactically valid; a
+    detector that flags `f(...)` flags both, so rewrites of the inner site must survive the rewrite of the outer one."""
+    import ast
+    import random as _random
+    rng = rng or _random.Random(0)
+    try:
+        tree = ast.parse(code)
+    except (SyntaxError, ValueError, RecursionError):
+        return []
+    blines = [l.encode("utf-8") for l in code.splitlines(keepends=True)]
+
+    def off(lineno, col):
+        return sum(len(b) for b in blines[:lineno - 1]) + col
+
+    data = code.encode("utf-8")
+    calls = [n for n in ast.walk(tree) if isinstance(n, ast.Call) and n.args and not isinstance(n.args[0], ast.Starred)
+             and isinstance(n.func, (ast.Name, ast.Attribute))]
+    rng.shuffle(calls)
+    out = []
+    for n in calls[:limit]:
+        a, b = off(n.lineno, n.col_offset), off(n.end_lineno, n.end_col_offset)
+        a0, b0 = off(n.args[0].lineno, n.args[0].col_offset), off(n.args[0].end_lineno, n.args[0].end_col_offset)
+        seg = data[a:b]
+        new = (data[:a0] + seg + data[b0:]).decode("utf-8")
+        if parses(new):
+            out.append(("nested_call", new))
+    return out
+
+
+def twin_import_variants(code: str):
+    """Imports that look alike in different places: (1) every module-level import repeated inside a function that uses
+    the name (a used twin of a possibly unused import, and vice versa); (2) every `from m import a` doubled as
+    `from m import a as a_alias` with both names used."""
+    import ast
+    try:
+        tree = ast.parse(code)
+    except (SyntaxError, ValueError, RecursionError):
+        return []
+    imports = [n for n in tree.body if isinstance(n, (ast.Import, ast.ImportFrom)) and getattr(n, "module", "") != "__future__"
+               and not any(a.name == "*" for a in n.names)]
+    if not imports:
+        return []
+    code_nl = code if code.endswith("\n") else code + "\n"
+    out = []
+    body = []
+    for n in imports:
+        seg = ast.get_source_segment(code, n)
+        if seg is None or "\n" in seg:
+            continue
+        names = [(a.asname or a.name.split(".")[0]) for a in n.names]
+        body.append(f"    {seg}\n    _twin_use = ({', '.join(names)},)\n")
+    if body:
+        out.append(("twin_import_in_function", code_nl + "\n\ndef _twin_import_user():\n" + "".join(body) + "    return _twin_use\n"))
+    alias_lines, uses = [], []
+    for n in imports:
+        if isinstance(n, ast.ImportFrom) and n.module and n.level == 0:
+            for a in n.names:
+                if a.asname is None:
+                    alias_lines.append(f"from {n.module} import {a.name} as {a.name}_alias\n")
+                    uses += [a.name, f"{a.name}_alias"]
+    if alias_lines:
+        head, rest = _split_future(code_nl)
+        out.append(("aliased_twin_import", head + "".join(alias_lines) + rest + f"\n_alias_use = ({', '.join(uses)},)\n"))
+    return out
+
+
 _variants_basic = variants
 
 
@@ -369,4 +436,6 @@ def variants(code: str, shift_ok: bool, rng=None):  # noqa: F811
         out.extend(expr_context_variants(code if code.endswith("\n") else code + "\n", rng))
         out.extend(layout_variants(code if code.endswith("\n") else code + "\n"))
         out.extend(second_use_variants(code))
+        out.extend(nested_call_variants(code if code.endswith("\n") else code + "\n", rng))
+        out.extend(twin_import_variants(code))
     return out
